@@ -541,7 +541,7 @@ def lean_ty(t):
         return "Bool"
     if t == "Section":
         return "Section"
-    if t in ("&[u8]", "&mut[u8]", "Vec<u8>", "&Vec<u8>", "bytes"):
+    if t in ("&[u8]", "&mut[u8]", "Vec<u8>", "&Vec<u8>", "&mutVec<u8>", "bytes"):
         return "Bytes"
     if t == "()":
         return "Unit"
@@ -555,7 +555,7 @@ def lean_ty(t):
 
 def norm_ty(t):
     t = t.replace(" ", "")
-    if t in ("&[u8]", "&mut[u8]", "Vec<u8>", "&Vec<u8>"):
+    if t in ("&[u8]", "&mut[u8]", "Vec<u8>", "&Vec<u8>", "&mutVec<u8>"):
         return "bytes"
     m = re.fullmatch(r"Result<(.*),Error>", t)
     if m:
@@ -699,6 +699,9 @@ class Translator:
         if fn["selfk"] != "own":
             for f in self.fields(fn, "writes"):
                 comps.append((f, self.self_fields[f][1]))
+        for pn, pty, _ in fn["params"]:
+            if pty.replace(" ", "") == "&mutVec<u8>":
+                comps.append(("param." + pn, "bytes"))
         return comps
 
     def ret_lean(self, fn):
@@ -714,7 +717,7 @@ class Translator:
         comps = self.ret_components(fn)
         parts = []
         for name, _ in comps:
-            parts.append(value if name == "ret" else env["self." + name].lean)
+            parts.append(value if name == "ret" else env[name[6:]].lean if name.startswith("param.") else env["self." + name].lean)
         if not parts:
             return "()"
         return parts[0] if len(parts) == 1 else "(" + ", ".join(parts) + ")"
@@ -1002,6 +1005,10 @@ class Translator:
             if pb:
                 raise Unsupported("fallible closure body")
             return pre, "(%s.any (fun x_ => let %s := x_.toNat; %s))" % (s, lean, tb), "bool"
+        if name == "eq_ignore_ascii_case" and len(args) == 1:
+            pre, t, ty = self.expr(recv, env, cx)
+            pa, ta, _ = self.expr(args[0], env, cx, ty)
+            return pre + pa, "(asciiLower %s == asciiLower %s)" % (t, ta), "bool"
         if name == "is_ascii_control" and not args:
             pre, t, ty = self.expr(recv, env, cx)
             return pre, "(decide (%s < 32) || %s == 127)" % (t, t), "bool"
@@ -1103,12 +1110,25 @@ class Translator:
         return True
 
     def is_ctrl(self, e):
+        if e[0] in ("cast", "paren") and self.is_ctrl(e[1]):
+            return True
+        if e[0] == "mcall" and e[2] in ("extend", "extend_from_slice", "push"):
+            return True
         return e[0] in ("if", "match", "loop", "while", "for", "block", "return", "break", "continue", "assign") or \
             (e[0] == "macro") or \
             (e[0] == "call" and e[1][0] == "path" and e[1][1][0] == "BigEndian" and e[1][1][1].startswith("write_"))
 
     def cps(self, e, env, cx, k, want_type=None):
         kind = e[0]
+        if kind == "paren" and self.is_ctrl(e[1]):
+            return self.cps(e[1], env, cx, k, want_type)
+        if kind == "cast" and self.is_ctrl(e[1]):
+            def kc(env1, v, vty=None):
+                env2 = dict(env1)
+                env2["%cast"] = Var(v, vty or "u8")
+                pre, t, ty = self.expr(("cast", ("var", "%cast"), e[2]), env2, cx)
+                return wrap(pre, k(env1, t, ty))
+            return self.cps(e[1], env, cx, kc, None)
         if kind == "block":
             outer = env
 
@@ -1151,6 +1171,12 @@ class Translator:
             return self.for_(e, env, cx, k)
         if kind == "assign":
             return self.assign(e, env, cx, k)
+        if kind == "mcall" and e[2] in ("extend", "extend_from_slice", "push") and e[1][0] == "var" \
+                and e[1][1] in env and env[e[1][1]].ty == "bytes":
+            v = env[e[1][1]]
+            pre, t, ty = self.expr(e[3][0], env, cx, "u8" if e[2] == "push" else None)
+            add = "[UInt8.ofNat %s]" % t if e[2] == "push" else t
+            return wrap(pre, "(let %s := %s ++ %s;\n%s)" % (v.lean, v.lean, add, k(env, "()")))
         if kind == "call" and e[1][0] == "path" and e[1][1][0] == "BigEndian" and e[1][1][1] in ("write_u16", "write_u32"):
             a = e[2][0]
             while a[0] in ("unary", "paren"):
@@ -1177,10 +1203,16 @@ class Translator:
                 return self.for_(("for", ("pwild",), rng, body), env, cx, k)
         # plain expression
         pre, t, ty = self.expr(e, env, cx, want_type[0] if want_type else None)
+        return wrap(pre, self.callk(k, env, t, ty))
+
+    @staticmethod
+    def callk(k, env, t, ty):
+        import inspect
         try:
-            return wrap(pre, k(env, t, ty))
-        except TypeError:
-            return wrap(pre, k(env, t))
+            n = len(inspect.signature(k).parameters)
+        except (TypeError, ValueError):
+            n = 3
+        return k(env, t, ty) if n >= 3 else k(env, t)
 
     def tr_pack(self, cx, env, v):
         return self.pack(cx.fn, env, v)
@@ -1318,6 +1350,8 @@ class Translator:
                     acc.append("self." + f)
                 elif tgt[0] == "var":
                     acc.append(tgt[1])
+            if e and e[0] == "mcall" and e[2] in ("extend", "extend_from_slice", "push") and e[1][0] == "var":
+                acc.append(e[1][1])
             if e and e[0] in ("mcall",) and e[1] == ("var", "self") and e[2] in self.fns:
                 for f in self.fields(self.fns[e[2]], "writes"):
                     acc.append("self." + f)
@@ -1381,6 +1415,9 @@ class Translator:
     def for_(self, e, env, cx, k):
         """`for _ in 0..n { body }` : recursion on the number of iterations left"""
         pat, it, body = e[1], e[2], e[3]
+        if it[0] == "mcall" and it[2] == "zip" and it[1][0] == "mcall" and it[1][2] == "iter" and \
+                it[3] and it[3][0][0] == "mcall" and it[3][0][2] == "iter" and pat[0] == "ptuple" and len(pat[1]) == 2:
+            return self.for_zip(pat, it[1][1], it[3][0][1], body, env, cx, k)
         if pat[0] != "pwild" or it[0] != "range" or it[1] != ("num", 0, None) or it[2] is None:
             raise Unsupported("for loop other than `for _ in 0..n`")
         fn = cx.fn
@@ -1411,6 +1448,43 @@ class Translator:
         pats = ", ".join(env[n].lean for n in carried)
         cx.aux.append("%s\n  | 0, %s =>\n%s\n  | left+1, %s =>\n%s" % (sig, pats, done, pats, text))
         return wrap(pn, "%s %s %s %s" % (name, fixed_args, tn, " ".join(env[n].lean for n in carried)))
+
+    def for_zip(self, pat, ea, eb, body, env, cx, k):
+        """`for (&a, &b) in x.iter().zip(y.iter()) { body }` : recursion on the two byte lists"""
+        fn = cx.fn
+        pa, ta, tya = self.expr(ea, env, cx)
+        pb, tb, tyb = self.expr(eb, env, cx)
+        if tya != "bytes" or tyb != "bytes" or pat[1][0][0] != "pid" or pat[1][1][0] != "pid":
+            raise Unsupported("zip over something other than two byte slices")
+        acc = []
+        self.assigned(body, acc)
+        carried = [n for n in dict.fromkeys(acc) if n in env]
+        cx.nloops = getattr(cx, "nloops", 0) + 1
+        name = "%s_zip%d" % (fn["lean"], cx.nloops)
+        env2, la = cx.declare(env, pat[1][0][1], "u8")
+        env2, lb = cx.declare(env2, pat[1][1][1], "u8")
+        outer = cx.loop
+
+        def again(env1):
+            return "%s FIXED rest_a rest_b %s" % (name, " ".join(env1[n].lean for n in carried))
+
+        def after(env1):
+            raise Unsupported("break inside a zip loop")
+        cx.loop = {"again": again, "after": after}
+        text = self.cps(body, env2, cx, lambda env1, v, vty=None: again(env1))
+        cx.loop = outer
+        done = k(env, "()")
+        both = text + "\n" + done
+        fixed = [n for n in env if n not in carried and re.search(r"(?<![\w'.])%s(?![\w'])" % re.escape(env[n].lean), both)]
+        fixed_args = " ".join(env[n].lean for n in fixed)
+        text = text.replace("%s FIXED rest_a" % name, ("%s %s rest_a" % (name, fixed_args)).replace("  ", " "))
+        sig = "def %s %s : Bytes → Bytes%s → Res (%s)" % (
+            name, " ".join("(%s : %s)" % (env[n].lean, lean_ty(env[n].ty)) for n in fixed),
+            "".join(" → " + lean_ty(env[n].ty) for n in carried), self.ret_lean(fn))
+        pats = "".join(", " + env[n].lean for n in carried)
+        cx.aux.append("%s\n  | a_ :: rest_a, b_ :: rest_b%s =>\n(let %s := a_.toNat;\n(let %s := b_.toNat;\n%s))\n  | _, _%s =>\n%s" % (
+            sig, pats, la, lb, text, pats, done))
+        return wrap(pa + pb, "%s %s %s %s %s" % (name, fixed_args, ta, tb, " ".join(env[n].lean for n in carried)))
 
     # ---- functions ----
     def function(self, fname):
@@ -1481,7 +1555,7 @@ def render(defs_text):
         while i < len(lines) and (lines[i].startswith("def ") or lines[i].startswith("  | ")):
             head.append(lines[i])
             i += 1
-            if head[-1].startswith("  | fuel+1") or head[-1].startswith("  | 0, ") or (head[-1].startswith("def ") and head[-1].endswith(":=")):
+            if head[-1].startswith("  | fuel+1") or head[-1].startswith("  | 0, ") or head[-1].startswith("  | a_ :: ") or (head[-1].startswith("def ") and head[-1].endswith(":=")):
                 break
         blocks.append("\n".join(head) + "\n" + indent("\n".join(lines[i:])))
     return "\n\n".join(blocks)
@@ -1503,6 +1577,14 @@ GROUPS = {
         self_fields={},
         fns=[dict(file="src/compress.rs", impl="Compress", fn="check_compressed_name", fuel=NAME_FUEL),
              dict(file="src/dns_sector.rs", impl="DNSSector", fn="check_uncompressed_name", fuel=NAME_FUEL)],
+    ),
+    "Reader": dict(
+        self_fields={},
+        fns=[dict(file="src/compress.rs", impl="Compress", fn="raw_name_len", fuel="name.length + 1"),
+             dict(file="src/compress.rs", impl="Compress", fn="raw_name_len_after_decompression", fuel=NAME_FUEL),
+             dict(file="src/compress.rs", impl="Compress", fn="copy_uncompressed_name", fuel=NAME_FUEL,
+                  ret_lean="(Nat × Nat) × Bytes"),
+             dict(file="src/compress.rs", impl="SuffixDict", fn="raw_names_eq_ignore_case")],
     ),
     "Sector": dict(
         self_fields={"packet": ("packet", "bytes"), "offset": ("offset", "usize"),
@@ -1544,6 +1626,9 @@ namespace Dns.Tr.%s
 SUPPORT = """
 /-- overflow-checked `+` / `*` on a fixed-width unsigned integer (debug build) -/
 def checked (bound v : Nat) : Res Nat := if v < bound then .ok v else .panic
+
+/-- `u8::to_ascii_lowercase` -/
+def asciiLower (c : Nat) : Nat := if 65 ≤ c ∧ c ≤ 90 then c + 32 else c
 """
 
 
